@@ -381,6 +381,40 @@ def search(ctx):
                     r2 = c16_probe_oracle(cfg, hs, probe) or r
                     out.append({"key": key, "what": r2[1], "kind": "c16-probe", **H.case_json(cfg, hs),
                                 "probe": [[p.hex(), w] for p, w in probe]})
+    # proprietary garbage: a frame of a multi-definition PGN whose match fields select NO definition (ignored by the
+    # decoder), then a valid message of the same PGN — must come back exactly as on a new decoder
+    from props import c08 as C8
+    plain = {"ex": [], "inc": [], "exm": [], "incm": [], "nm": False}
+    for pgn, g in C8._groups(C8._db()).items():
+        if "C16:single-probe-depends-on-history" in seen and "C16:fast-probe-depends-on-history" in seen:
+            break
+        if not (len(g) > 1 and any(C8._match_fields(d) for d in g)):
+            continue
+        ps = C8._payloads(g, rng, 1)
+        none = [q for q in ps if C8._spec_select(g, q) is None]
+        some = [q for q in ps if C8._spec_select(g, q) is not None]
+        if not none or not some:
+            continue
+        fast = bool(Dec._isFastPGN(pgn))
+        dst = 255 if not H.is_pdu1(pgn) else 17
+
+        def frames(q, seq, pgn=pgn, g=g, fast=fast, dst=dst):
+            nb = max([8] + [d.get("Length", 8) for d in g]) if fast else 8
+            data = (q & ((1 << (8 * nb)) - 1)).to_bytes(nb, "little")
+            if not fast:
+                return [(H.mk_pkt(pgn, 5, dst, 3, data), False)]
+            return [(H.mk_pkt(pgn, 5, dst, 3, (f + bytes([0xFF] * 8))[:8], 8), False) for f in H.fast_frames(data, seq)]
+        hist = frames(none[0], 1) + frames(none[-1], 2)
+        for q in some[:3]:
+            probe = frames(q, 5)
+            r = c16_probe_oracle(plain, hist, probe)
+            if r:
+                key = f"C16:{r[0]}-probe-depends-on-history"
+                if key not in seen:
+                    seen.add(key)
+                    out.append({"key": key, "what": r[1], "kind": "c16-probe", **H.case_json(plain, hist),
+                                "probe": [[pk.hex(), w_] for pk, w_ in probe]})
+                break
     return out
 
 
